@@ -150,6 +150,16 @@ CHECKS = {
         "Driver recording via inspect.signature.bind is independent of the tracer; Iterator/Generator element types of argument values are unverifiable.",
         "6 C01",
     ),
+    "C10": (
+        "exploration",
+        "runtime monitoring: differential observation of the real CLI (stub / stub -v / apply in fresh interpreters) on a store with stale rows versus a copy holding the decodable rows only",
+        "Stores mixing valid rows with every kind of stale row (12 mutation kinds, subsets up to 3, shuffled orders, duplicates, and stores "
+        "where nothing decodes) are given to `stub`, `stub -v` and `apply` against the mutated package: exit status 0, stdout / rewritten "
+        "file equal (up to union member order) to the run on the decodable rows alone, skipped count or one warning per skipped row on "
+        "stderr, 'No traces found' when nothing decodes.",
+        "Staleness is known by construction; union member order is C14's subject.",
+        "6 C10",
+    ),
 }
 
 PENDING = {}
